@@ -14,6 +14,23 @@ CHECKS = {
     ),
 }
 
+CHECKS["C13"] = dict(
+    engine="mirsym+kani",
+    technique="SMT (z3/cvc5) over a symbolic execution of the real MIR of IPDiversityEnforcer::{can_accept,add,remove}_unified, analyze_ip/ipv4 from an arbitrary enforcer state (LruCaches as SMT arrays); Kani/CBMC for extract_subnet_prefix",
+    category="proof",
+    text="Bounded proof by SMT: one add / remove / can-accept step from an ARBITRARY enforcer state (all caps symbolic, maps as arrays), arbitrary candidate; admit iff every level is below the cap in force, exact counter updates, failed admission consumes nothing, add-then-remove restores every counter; induction over histories via the re-proved representation invariant. Counterexamples are replayed natively (JSON driver inside the crate) and only reproduced ones are reported.",
+    note="Trusts the library-call summaries listed in the evidence (LruCache as array, Option/cmp helpers), the three solvers, single-threaded execution; fraction limited to the three presets, network size <= 2^32, caps >= 1; async call sites in DhtCoreEngine/BootstrapManager are outside.",
+    design_ref="4/C13",
+)
+CHECKS["C14"] = dict(
+    engine="mirsym+kani",
+    technique="SMT (z3/cvc5, floating point + bit-vectors + arrays) over a symbolic execution of the real MIR of Bucket::try_consume, Engine::try_consume_key and JoinRateLimiter::check_join_allowed with symbolic clock; Kani/CBMC for the prefix helpers",
+    category="proof",
+    text="Bounded proof by SMT: one attempt from an ARBITRARY bucket / engine / limiter state under an arbitrary non-decreasing clock: token and window budgets (exact f64 refill rule), per-key isolation, Ok charges exactly the global, /64, /48 (or /24) buckets of the masked address. Multi-step bounds follow by induction over the proved one-step relation. try_consume is verified on its real body and used through its proved contract at the map level. Counterexamples are replayed natively with a clock shim.",
+    note="Trusts the summaries (Instant/Duration arithmetic, LruCache as array, f64::min), the solvers, single-threaded execution; windows 60 s / 3600 s only, cfg values 1..1e6; concurrency and LRU eviction outside.",
+    design_ref="4/C14",
+)
+
 NA = {
     "C01": "monolithic async fn over tokio/QUIC transport with string-keyed hash sets and timeouts; no solver-reachable encoding of the real code",
     "C02": "pending: routing-table kernel check not built yet",
